@@ -16,6 +16,7 @@ pub mod scen_multi;
 pub mod scen_progress;
 pub mod scen_path;
 pub mod scen_term;
+pub mod scen_token;
 pub mod txobs;
 pub mod scen_zrtt2;
 pub mod scen_reset;
